@@ -305,8 +305,24 @@ class EditStream(HTMLHandlerBase):
             params = flask.request.json
         else:
             params = flask.request.form
-        current_stream.title = params['title']
         context = self.create_context(current_stream.title, False)
+        # the CSRF check commits the database session (it records the used token),
+        # so it must pass before the stream is modified
+        try:
+            self.check_csrf('streams', params)
+        except (ValueError, CsrfFailureException) as cfe:
+            logging.debug("csrf check failed")
+            logging.debug(cfe)
+            if is_ajax():
+                return jsonify({'error': f'CSRF failure: {cfe}'}, 401)
+            context['error'] = "csrf check failed"
+            context['csrf_tokens'] = CsrfTokenCollection(
+                files=self.generate_csrf_token('files', context['csrf_key']),
+                kids=self.generate_csrf_token('keys', context['csrf_key']),
+                streams=context['csrf_token'],
+                upload=None)
+            return flask.render_template('media/stream.html', **context)
+        current_stream.title = params['title']
         if models.MediaFile.count(stream=current_stream) == 0:
             current_stream.directory = params['directory']
         current_stream.marlin_la_url = str_or_none(params['marlin_la_url'])
@@ -319,19 +335,6 @@ class EditStream(HTMLHandlerBase):
                 return flask.make_response(
                     f'Invalid timing_reference "{html.escape(timing_reference)}"', 400)
             current_stream.set_timing_reference(mf.as_stream_timing_reference())
-        try:
-            self.check_csrf('streams', params)
-        except (CsrfFailureException) as cfe:
-            logging.debug("csrf check failed")
-            logging.debug(cfe)
-            context['error'] = "csrf check failed"
-        if context['error'] is not None:
-            context['csrf_tokens'] = CsrfTokenCollection(
-                files=self.generate_csrf_token('files', context['csrf_key']),
-                kids=self.generate_csrf_token('keys', context['csrf_key']),
-                streams=context['csrf_token'],
-                upload=None)
-            return flask.render_template('media/stream.html', **context)
         models.db.session.commit()
         if is_ajax():
             return jsonify(current_stream.toJSON())
